@@ -45,10 +45,10 @@ func SiteAt(trace []Rd, off int) string {
 }
 
 // The boundary alphabet of the design: {0,1,2,0xfc,0xfd,0xfe,0xff,2^16−1,2^16,2^20,2^31−1,2^32−1,
-// 2^32,2^63−1,2^63,2^64−1}, restricted to what fits the width, plus 2^24 and 2^31 for 4 and 8 bytes
-// (2^24 elements of a 24-byte type is the smallest menu value that exceeds the allocation bound
-// without exceeding the worker's address-space limit).
-var boundary = []uint64{0, 1, 2, 0xfc, 0xfd, 0xfe, 0xff, 1<<16 - 1, 1 << 16, 1 << 20, 1 << 24, 1<<31 - 1, 1 << 31, 1<<32 - 1, 1 << 32, 1<<63 - 1, 1 << 63, 1<<64 - 1}
+// 2^32,2^63−1,2^63,2^64−1}, restricted to what fits the width, plus 2^21 and 2^31 for 4 and 8 bytes
+// (2^20 elements of a 24-byte type are exactly 24 MiB, i.e. not above the allocation bound; 2^21
+// is the smallest power of two that is, and it stays far below the worker's address-space limit).
+var boundary = []uint64{0, 1, 2, 0xfc, 0xfd, 0xfe, 0xff, 1<<16 - 1, 1 << 16, 1 << 20, 1 << 21, 1<<31 - 1, 1 << 31, 1<<32 - 1, 1 << 32, 1<<63 - 1, 1 << 63, 1<<64 - 1}
 
 // Subst is one replacement of the bytes [Off, Off+Del) by Ins.
 type Subst struct {
@@ -92,7 +92,7 @@ var varintMenu = []struct {
 	v    uint64
 }{
 	{0xfd, 2, 0}, {0xfd, 2, 0xfc}, {0xfd, 2, 0xfd}, {0xfd, 2, 0xffff},
-	{0xfe, 4, 0}, {0xfe, 4, 0xffff}, {0xfe, 4, 1 << 16}, {0xfe, 4, 1 << 20}, {0xfe, 4, 1 << 24}, {0xfe, 4, 1<<31 - 1}, {0xfe, 4, 1<<32 - 1},
+	{0xfe, 4, 0}, {0xfe, 4, 0xffff}, {0xfe, 4, 1 << 16}, {0xfe, 4, 1 << 20}, {0xfe, 4, 1 << 21}, {0xfe, 4, 1<<31 - 1}, {0xfe, 4, 1<<32 - 1},
 	{0xff, 8, 0}, {0xff, 8, 1<<32 - 1}, {0xff, 8, 1 << 32}, {0xff, 8, 1<<63 - 1}, {0xff, 8, 1 << 63}, {0xff, 8, 1<<64 - 1},
 }
 
@@ -152,6 +152,30 @@ func PairSubsts(seed []byte, f Field) []Subst {
 
 // ByteAlphabet16 is the 16-value menu for single-byte substitutions of long inputs.
 var ByteAlphabet16 = []byte{0x00, 0x01, 0x02, 0x03, 0x04, 0x08, 0x09, 0x10, 0x20, 0x40, 0x7f, 0x80, 0xfc, 0xfd, 0xfe, 0xff}
+
+// ByteAlphabet8 is the reduced menu of the quick tier.
+var ByteAlphabet8 = []byte{0x00, 0x01, 0x02, 0x7f, 0x80, 0xfd, 0xfe, 0xff}
+
+// FieldBytePositions: the byte offsets of the quick tier's single-byte substitutions — every byte
+// of every discovered field plus the first `head` bytes of the seed — ascending, without repeats.
+func FieldBytePositions(seedLen int, fields []Field, head int) []int {
+	mark := make([]bool, seedLen)
+	for i := 0; i < head && i < seedLen; i++ {
+		mark[i] = true
+	}
+	for _, f := range fields {
+		for i := f.Off; i < f.Off+f.N && i < seedLen; i++ {
+			mark[i] = true
+		}
+	}
+	var out []int
+	for i, m := range mark {
+		if m {
+			out = append(out, i)
+		}
+	}
+	return out
+}
 
 // Apply returns seed with the substitutions applied (offsets refer to the seed; substitutions
 // must not overlap and must be ordered by offset).
